@@ -3,7 +3,13 @@ package main
 // Reference broker: the specification-level oracle of the broker properties, written from the
 // property texts (MQTT 3.1.1) and independent of the library and of the Coq model.  It predicts,
 // event by event, the packets every connection must receive, and reports every difference with
-// the id of the property it falls under.  Histories that touch a listed finding are tagged so.
+// the id of the property it falls under.
+//
+// Listed findings are attributed EXACTLY: besides the specification-level reference, three variants
+// run in lockstep that differ from it only by what a listed finding says the library does instead
+// (F7: topic levels as the splitter produces them; F18: QoS 2 exchanges released in arrival order;
+// both).  A failure of the specification-level reference is tagged with a finding only if the
+// variant for that finding predicts precisely what the connection in question received.
 
 import (
 	"bytes"
@@ -27,35 +33,113 @@ type rpub struct {
 	retain  bool
 }
 
+type rsub struct {
+	filter string
+	qos    int
+}
+
 type rconn struct {
-	cid   string
-	clean bool
-	will  *rpub
-	subs  map[string]int // filter -> granted QoS
-	q2    map[int]rpub   // open incoming QoS 2 exchanges
-	q2seq []int          // their order of arrival
-	live  bool
+	cid      string
+	clean    bool
+	will     *rpub
+	subs     map[string]rsub // key of the filter -> filter, granted QoS
+	topics   map[string]int  // session state: filter string -> QoS
+	q2       map[int]rpub    // open incoming QoS 2 exchanges
+	q2seq    []int           // their order of arrival
+	q2done   map[int]bool    // (fifo variant) PUBREL seen, not yet released
+	live     bool
 	inflight map[int]int // QoS>0 PUBLISH identifiers delivered to this connection and not acknowledged
 }
 
 type q2state struct {
-	q2    map[int]rpub
-	q2seq []int
+	q2     map[int]rpub
+	q2seq  []int
+	q2done map[int]bool
+}
+
+type rret struct {
+	topic string
+	m     rmsg
 }
 
 type refBroker struct {
-	conns    map[int]*rconn
-	sessQ2   map[string]q2state // open QoS 2 exchanges are session state (CleanSession=0)
-	sessions map[string]map[string]int
-	retained map[string]rmsg
-	inproc   map[int]map[string]int
-	emptyLvl bool // an empty topic level occurred: finding F7
-	f18      bool // a PUBREL arrived out of order: finding F18
-	closed   bool
+	conns       map[int]*rconn
+	sessQ2      map[string]q2state // open QoS 2 exchanges are session state (CleanSession=0)
+	sessions    map[string]map[string]int
+	retained    map[string]rret
+	inproc      map[int]map[string]rsub
+	lastRefused bool // the event just checked was a first packet that must be refused
+	quirk       bool // variant F7: topic levels as the library's splitter produces them
+	fifo        bool // variant F18: QoS 2 exchanges are released in the order of arrival only
+	closed      bool
 }
 
-func newRef() *refBroker {
-	return &refBroker{conns: map[int]*rconn{}, sessQ2: map[string]q2state{}, sessions: map[string]map[string]int{}, retained: map[string]rmsg{}, inproc: map[int]map[string]int{}}
+func newRef(quirk, fifo bool) *refBroker {
+	return &refBroker{conns: map[int]*rconn{}, sessQ2: map[string]q2state{}, sessions: map[string]map[string]int{}, retained: map[string]rret{}, inproc: map[int]map[string]rsub{},
+		quirk: quirk, fifo: fifo}
+}
+
+// ---------- variant F7: what the library is known to do with empty levels ----------
+
+// the levels the splitter produces: a leading empty level (of the string or of any remainder) becomes
+// "+", a trailing empty level is dropped; ok=false where the splitter refuses the string
+func qsplit(t string) (ls []string, ok bool) {
+	rest := t
+	for len(rest) > 0 {
+		i := strings.IndexByte(rest, '/')
+		var l string
+		switch {
+		case i < 0:
+			l, rest = rest, ""
+		case i == 0:
+			l, rest = "+", rest[1:]
+		default:
+			l, rest = rest[:i], rest[i+1:]
+			if l == "#" {
+				return nil, false
+			}
+		}
+		if strings.ContainsAny(l, "#+") && len(l) != 1 {
+			return nil, false
+		}
+		if strings.HasPrefix(l, "$") {
+			return nil, false
+		}
+		ls = append(ls, l)
+	}
+	return ls, true
+}
+
+func (rb *refBroker) key(s string) string {
+	if rb.quirk {
+		ls, _ := qsplit(s)
+		return strings.Join(ls, "\x00")
+	}
+	return s
+}
+
+func (rb *refBroker) valid(f string) bool {
+	if rb.quirk {
+		_, ok := qsplit(f)
+		return ok && f != ""
+	}
+	return validFilter(f) && !hasSys(f)
+}
+
+// does the subscription stored under key k match the topic name t
+func (rb *refBroker) match(k, t string) bool {
+	if rb.quirk {
+		tl, ok := qsplit(t)
+		if !ok {
+			return false
+		}
+		var fl []string
+		if k != "" {
+			fl = strings.Split(k, "\x00")
+		}
+		return fmatch(fl, tl)
+	}
+	return matches(k, t)
 }
 
 // ---------- section 4.7 ----------
@@ -140,9 +224,9 @@ func descPub(t string, p []byte, q int, r bool) string {
 func (rb *refBroker) deliver(ex *expectation, m rpub, prop string) {
 	if m.retain {
 		if len(m.payload) == 0 {
-			delete(rb.retained, m.topic)
+			delete(rb.retained, rb.key(m.topic))
 		} else if !hasSys(m.topic) {
-			rb.retained[m.topic] = rmsg{string(m.payload), m.qos}
+			rb.retained[rb.key(m.topic)] = rret{m.topic, rmsg{string(m.payload), m.qos}}
 		}
 	}
 	if hasSys(m.topic) {
@@ -157,16 +241,16 @@ func (rb *refBroker) deliver(ex *expectation, m rpub, prop string) {
 	sort.Ints(ids)
 	for _, id := range ids {
 		c := rb.conns[id]
-		for f, g := range c.subs {
-			if matches(f, m.topic) {
-				ex.conn[id] = append(ex.conn[id], want{descPub(m.topic, m.payload, min(m.qos, g), false), prop})
+		for k, sb := range c.subs {
+			if rb.match(k, m.topic) {
+				ex.conn[id] = append(ex.conn[id], want{descPub(m.topic, m.payload, min(m.qos, sb.qos), false), prop})
 			}
 		}
 	}
 	for s, subs := range rb.inproc {
-		for f, g := range subs {
-			if matches(f, m.topic) {
-				ex.calls = append(ex.calls, fmt.Sprintf("call sub=%d %s", s, descPub(m.topic, m.payload, min(m.qos, g), false)))
+		for k, sb := range subs {
+			if rb.match(k, m.topic) {
+				ex.calls = append(ex.calls, fmt.Sprintf("call sub=%d %s", s, descPub(m.topic, m.payload, min(m.qos, sb.qos), false)))
 			}
 		}
 	}
@@ -174,9 +258,21 @@ func (rb *refBroker) deliver(ex *expectation, m rpub, prop string) {
 
 func (rb *refBroker) retainedFor(f string, g int) []rpub {
 	var res []rpub
-	for t, m := range rb.retained {
-		if matches(f, t) {
-			res = append(res, rpub{t, []byte(m.payload), min(m.qos, g), true})
+	for k, r := range rb.retained {
+		ok := false
+		if rb.quirk {
+			// the retained tree is searched with the filter's levels against the stored path
+			fl, _ := qsplit(f)
+			var tl []string
+			if k != "" {
+				tl = strings.Split(k, "\x00")
+			}
+			ok = fmatch(fl, tl)
+		} else {
+			ok = matches(f, k)
+		}
+		if ok {
+			res = append(res, rpub{r.topic, []byte(r.m.payload), min(r.m.qos, g), true})
 		}
 	}
 	return res
@@ -190,8 +286,8 @@ func (rb *refBroker) endConn(ex *expectation, id int, normal bool) {
 	c.live = false
 	ex.close[id] = true
 	if !c.clean {
-		rb.sessions[c.cid] = c.subs
-		rb.sessQ2[c.cid] = q2state{c.q2, c.q2seq}
+		rb.sessions[c.cid] = c.topics
+		rb.sessQ2[c.cid] = q2state{c.q2, c.q2seq, c.q2done}
 	} else {
 		delete(rb.sessions, c.cid)
 		delete(rb.sessQ2, c.cid)
@@ -203,14 +299,14 @@ func (rb *refBroker) endConn(ex *expectation, id int, normal bool) {
 
 // parse a CONNECT as far as the oracle needs it
 type connectInfo struct {
-	ok            bool // framing complete, type CONNECT, body parses
-	badLevel      bool
-	badFlags      bool
-	badID         bool
-	cid           string
-	clean         bool
-	will          *rpub
-	rest          []byte
+	ok       bool // framing complete, type CONNECT, body parses
+	badLevel bool
+	badFlags bool
+	badID    bool
+	cid      string
+	clean    bool
+	will     *rpub
+	rest     []byte
 }
 
 func parseConnect(b []byte) connectInfo {
@@ -290,12 +386,6 @@ func parseConnect(b []byte) connectInfo {
 	return ci
 }
 
-func (rb *refBroker) note(s string) {
-	if hasEmpty(s) {
-		rb.emptyLvl = true
-	}
-}
-
 // packets arriving on an accepted connection
 func (rb *refBroker) feed(ex *expectation, id int, b []byte) {
 	c := rb.conns[id]
@@ -317,7 +407,6 @@ func (rb *refBroker) feed(ex *expectation, id int, b []byte) {
 				rb.endConn(ex, id, false)
 				return
 			}
-			rb.note(pub.Topic)
 			m := rpub{pub.Topic, pub.Payload, pub.QoS, pub.Retain}
 			switch pub.QoS {
 			case 0:
@@ -338,10 +427,7 @@ func (rb *refBroker) feed(ex *expectation, id int, b []byte) {
 				rb.endConn(ex, id, false)
 				return
 			}
-			if m, open := c.q2[pid]; open {
-				if len(c.q2seq) > 0 && c.q2seq[0] != pid {
-					rb.f18 = true // released out of the order of arrival
-				}
+			if m, open := c.q2[pid]; open && !rb.fifo {
 				rb.deliver(ex, m, "C02")
 				delete(c.q2, pid)
 				for i, x := range c.q2seq {
@@ -349,6 +435,16 @@ func (rb *refBroker) feed(ex *expectation, id int, b []byte) {
 						c.q2seq = append(c.q2seq[:i], c.q2seq[i+1:]...)
 						break
 					}
+				}
+			} else if open {
+				// variant F18: the exchange is marked and the queue releases its completed head entries
+				c.q2done[pid] = true
+				for len(c.q2seq) > 0 && c.q2done[c.q2seq[0]] {
+					h := c.q2seq[0]
+					rb.deliver(ex, c.q2[h], "C02")
+					delete(c.q2, h)
+					delete(c.q2done, h)
+					c.q2seq = c.q2seq[1:]
 				}
 			}
 			add(fmt.Sprintf("PUBCOMP id=%d", pid), "C02")
@@ -396,14 +492,14 @@ func (rb *refBroker) feed(ex *expectation, id int, b []byte) {
 			var codes []byte
 			var rets []rpub
 			for i, f := range fs {
-				rb.note(f)
-				if !validFilter(f) || qs[i] > 2 || hasSys(f) {
+				if !rb.valid(f) || qs[i] > 2 {
 					codes = append(codes, 0x80)
 					continue
 				}
 				g := min(qs[i], 2)
 				codes = append(codes, byte(g))
-				c.subs[f] = g
+				c.subs[rb.key(f)] = rsub{f, g}
+				c.topics[f] = g
 				rets = append(rets, rb.retainedFor(f, g)...)
 			}
 			sa := fmt.Sprintf("SUBACK id=%d codes=%x", pid, codes)
@@ -430,8 +526,8 @@ func (rb *refBroker) feed(ex *expectation, id int, b []byte) {
 				}
 				l := int(body[0])<<8 | int(body[1])
 				f := string(body[2 : 2+l])
-				rb.note(f)
-				delete(c.subs, f)
+				delete(c.subs, rb.key(f))
+				delete(c.topics, f)
 				body = body[2+l:]
 				n++
 			}
@@ -524,13 +620,21 @@ func descOf(p []byte) string {
 }
 
 // check predicts the observations of one event and compares
-func (rb *refBroker) check(ev hx.Group, obs map[int][][]byte, calls []call) []string {
+type failure struct {
+	prop  string
+	scope string // the connection (or "calls") the failure is about
+	msg   string
+}
+
+func (rb *refBroker) check(ev hx.Group, obs map[int][][]byte, calls []call) []failure {
 	ex := newExp()
 	skipPackets := false
+	rb.lastRefused = false
 	switch ev[0] {
 	case 1:
 		id, authok, b := int(ev[1]), ev[2] != 0, gbytes(ev, 3)
 		ci := parseConnect(b)
+		rb.lastRefused = !ci.ok || ci.badFlags || ci.badLevel || ci.badID || !authok
 		switch {
 		case !ci.ok || ci.badFlags:
 			ex.close[id] = true
@@ -544,16 +648,22 @@ func (rb *refBroker) check(ev hx.Group, obs map[int][][]byte, calls []call) []st
 			ex.conn[id] = []want{{"CONNACK sp=false code=4", "C11"}}
 			ex.close[id] = true
 		default:
-			c := &rconn{cid: ci.cid, clean: ci.clean || ci.cid == "", will: ci.will, subs: map[string]int{}, q2: map[int]rpub{}, live: true, inflight: map[int]int{}}
+			c := &rconn{cid: ci.cid, clean: ci.clean || ci.cid == "", will: ci.will, subs: map[string]rsub{}, topics: map[string]int{}, q2: map[int]rpub{}, q2done: map[int]bool{}, live: true, inflight: map[int]int{}}
 			sp := false
 			if !c.clean {
 				if old, ok := rb.sessions[c.cid]; ok {
 					sp = true
-					for f, g := range old {
-						c.subs[f] = g
+					var fs []string
+					for f := range old {
+						fs = append(fs, f)
+					}
+					sort.Strings(fs)
+					for _, f := range fs {
+						c.subs[rb.key(f)] = rsub{f, old[f]}
+						c.topics[f] = old[f]
 					}
 					if q, ok := rb.sessQ2[c.cid]; ok {
-						c.q2, c.q2seq = q.q2, q.q2seq
+						c.q2, c.q2seq, c.q2done = q.q2, q.q2seq, q.q2done
 					}
 				}
 			} else {
@@ -564,7 +674,7 @@ func (rb *refBroker) check(ev hx.Group, obs map[int][][]byte, calls []call) []st
 				c.cid = fmt.Sprintf("\x00anon%d", id)
 			}
 			if !c.clean {
-				rb.sessions[c.cid] = c.subs
+				rb.sessions[c.cid] = c.topics
 			}
 			rb.conns[id] = c
 			ca := fmt.Sprintf("CONNACK sp=%v code=0", sp)
@@ -578,12 +688,11 @@ func (rb *refBroker) check(ev hx.Group, obs map[int][][]byte, calls []call) []st
 		rb.endConn(ex, int(ev[1]), false)
 	case 4:
 		s, q, f := int(ev[1]), int(ev[2]), string(gbytes(ev, 3))
-		rb.note(f)
-		if validFilter(f) && q <= 2 && !hasSys(f) {
+		if rb.valid(f) && q <= 2 {
 			if rb.inproc[s] == nil {
-				rb.inproc[s] = map[string]int{}
+				rb.inproc[s] = map[string]rsub{}
 			}
-			rb.inproc[s][f] = q
+			rb.inproc[s][rb.key(f)] = rsub{f, q}
 			for _, r := range rb.retainedFor(f, q) {
 				ex.calls = append(ex.calls, fmt.Sprintf("call sub=%d %s", s, descPub(r.topic, r.payload, r.qos, true)))
 			}
@@ -591,19 +700,17 @@ func (rb *refBroker) check(ev hx.Group, obs map[int][][]byte, calls []call) []st
 	case 5:
 		s, f := int(ev[1]), string(gbytes(ev, 2))
 		if rb.inproc[s] != nil {
-			delete(rb.inproc[s], f)
+			delete(rb.inproc[s], rb.key(f))
 		}
 	case 6:
 		pub, err := mq.ParsePublish(gbytes(ev, 1))
 		if err == nil && !strings.ContainsAny(pub.Topic, "#+") {
-			rb.note(pub.Topic)
 			rb.deliver(ex, rpub{pub.Topic, pub.Payload, pub.QoS, pub.Retain}, "C01")
 		}
 	case 8:
 		b := gbytes(ev, 4)
 		t := string(b[:ev[3]])
 		if t != "" && !strings.ContainsAny(t, "#+") {
-			rb.note(t)
 			rb.deliver(ex, rpub{t, b[ev[3]:], int(ev[1]), ev[2] != 0}, "C01")
 		}
 	case 7:
@@ -620,16 +727,9 @@ func (rb *refBroker) check(ev hx.Group, obs map[int][][]byte, calls []call) []st
 	}
 
 	// ---------- compare ----------
-	var fails []string
-	tag := func(prop, msg string) string {
-		switch {
-		case rb.emptyLvl:
-			return "empty-level: (" + prop + ") " + msg
-		case rb.f18 && (prop == "C02" || prop == "C01"):
-			return "F18-pubrel-order: (" + prop + ") " + msg
-		}
-		return prop + ": " + msg
-	}
+	var fails []failure
+	scope := ""
+	tag := func(prop, msg string) failure { return failure{prop, scope, msg} }
 	ids := map[int]bool{}
 	for id := range obs {
 		ids[id] = true
@@ -641,6 +741,7 @@ func (rb *refBroker) check(ev hx.Group, obs map[int][][]byte, calls []call) []st
 		ids[id] = true
 	}
 	for id := range ids {
+		scope = fmt.Sprintf("conn%d", id)
 		var got []string
 		closed := false
 		for _, p := range obs[id] {
@@ -667,7 +768,7 @@ func (rb *refBroker) check(ev hx.Group, obs map[int][][]byte, calls []call) []st
 				if pub, err := mq.ParsePublish(p); err == nil && pub.QoS > 0 {
 					if c := rb.conns[id]; c != nil {
 						if c.inflight[pub.PID] > 0 {
-							fails = append(fails, fmt.Sprintf("F17-forwarded-id: (C12) connection %d holds two unacknowledged PUBLISH packets with packet identifier %d", id, pub.PID))
+							fails = append(fails, failure{"F17", scope + "-f17", fmt.Sprintf("F17-forwarded-id: (C12) connection %d holds two unacknowledged PUBLISH packets with packet identifier %d", id, pub.PID)})
 						}
 						c.inflight[pub.PID]++
 					}
@@ -720,6 +821,7 @@ func (rb *refBroker) check(ev hx.Group, obs map[int][][]byte, calls []call) []st
 		}
 	}
 	// in-process calls
+	scope = "calls"
 	var gotCalls []string
 	for _, c := range calls {
 		gotCalls = append(gotCalls, fmt.Sprintf("call sub=%d %s", c.sub, descPub(c.topic, c.payload, int(c.flags>>1)&3, c.flags&1 != 0)))
